@@ -286,6 +286,11 @@ func (fv *FV) applyContract(st *State, spec *FuncSpec, fn *ssa.Function, c *ssa.
 			if i < len(spec.ResNames) && spec.ResNames[i] != "" {
 				post.vars[spec.ResNames[i]] = r
 			}
+			if i == rs.Len()-1 && rs.At(i).Name() == "" && types.TypeString(t, nil) == "error" {
+				if _, taken := post.vars["err"]; !taken {
+					post.vars["err"] = r
+				}
+			}
 		}
 	}
 	for _, cl := range spec.Ensures {
